@@ -312,6 +312,9 @@ func parseMsgPipelineRcptCfg(globals map[string]interface{}, nodes []config.Node
 			return nil, config.NodeErr(node, "invalid directive")
 		}
 	}
+	if rcpt.rejectErr == nil && len(rcpt.targets) == 0 {
+		return nil, fmt.Errorf("destination block has neither 'deliver_to'/'reroute' nor 'reject', use 'reject' to reject messages")
+	}
 	return &rcpt, nil
 }
 
